@@ -209,3 +209,36 @@ package stackitem
 //@ ensures[refused] typeOf(item) != typ && typ != IntegerT && typ != BooleanT && typ != ByteArrayT && typ != BufferT ==> result1 != nil
 //@ func (*Pointer).Type
 //@ implements Item.Type
+
+// ---- EQUAL on scalar and reference items: integers compare by value (and only with integers),
+// booleans by value (only with booleans), null equals null only, arrays and maps by identity,
+// pointers by position and script.
+//@ func (*BigInteger).Equals
+//@ requires i != nil && (is(s, *BigInteger) ==> s.(*BigInteger) != nil)
+//@ ensures[value] result == (is(s, *BigInteger) && (*big.Int)(s.(*BigInteger)).v == (*big.Int)(i).v)
+//@ func (Bool).Equals
+//@ ensures[value] result == (is(s, Bool) && bool(s.(Bool)) == bool(i))
+//@ func (Null).Equals
+//@ ensures[null] result == is(s, Null)
+//@ func (*Array).Equals
+//@ ensures[identity] result == (is(s, *Array) && s.(*Array) == i)
+//@ func (*Map).Equals
+//@ ensures[identity] result == (is(s, *Map) && s.(*Map) == i)
+//@ func (*Pointer).Equals
+//@ requires p != nil && (is(s, *Pointer) ==> s.(*Pointer) != nil)
+//@ ensures[target] result == (is(s, *Pointer) && s.(*Pointer).pos == p.pos && s.(*Pointer).hash == p.hash)
+// byte strings compare by content, only with byte strings; the comparison is charged the longer of
+// the two lengths (1 when the other item is not a byte string) against the caller's budget, and
+// FAULTs when either operand exceeds what is left of it
+//@ func (*ByteArray).equalsLimited
+//@ opt inline-defers yes
+//@ opt uncovered 1
+//@ requires i != nil && limit != nil && (is(s, *ByteArray) ==> s.(*ByteArray) != nil)
+//@ modifies *limit
+//@ panics-if len(*i) > *limit || *limit == 0 || (is(s, *ByteArray) && s.(*ByteArray) != i && len(*s.(*ByteArray)) > *limit)
+//@ ensures[value] result == (is(s, *ByteArray) && seq(*i) == seq(*s.(*ByteArray)))
+//@ ensures[charged] *limit == old(*limit) - ite(is(s, *ByteArray), ite(len(*i) >= len(*s.(*ByteArray)), len(*i), len(*s.(*ByteArray))), 1)
+//@ func (*ByteArray).Equals
+//@ requires i != nil && (is(s, *ByteArray) ==> s.(*ByteArray) != nil)
+//@ panics-if len(*i) > MaxByteArrayComparableSize || (is(s, *ByteArray) && s.(*ByteArray) != i && len(*s.(*ByteArray)) > MaxByteArrayComparableSize)
+//@ ensures[value] result == (is(s, *ByteArray) && seq(*i) == seq(*s.(*ByteArray)))
